@@ -665,6 +665,10 @@ class Wrapc(util.WrapperMixin):
                     fmttmp.cxx_var = name
                 for arg in intent_blk.c_arg_decl:
                     append_format(proto_list, arg, fmttmp)
+                if not intent_blk.c_arg_decl:
+                    # Only the Fortran declaration is special.
+                    proto_list.append(ast.gen_arg_as_c(
+                        name=name or ast.name, continuation=True))
                 continue
 
             need_wrapper = True
